@@ -21,6 +21,9 @@ def run_direct(ctx, n):
     for _ in range(n):
         cases.append({'L': r.randint(2, 300), 'epochs': r.choice([1, 2, 3, 5, 10]), 'target': r.choice([0.3, 1.0, 2.0, 5.0, 10.0]),
                       'delta': r.choice([1e-5, 1e-6, 1e-3]), 'tol': r.choice([0.01, 0.05]), 'acc': r.choice(['rdp', 'rdp', 'gdp', 'prv']), 'by': r.choice(['steps', 'epochs'])})
+    for c in cases:
+        if c['by'] == 'steps' and r.random() < 0.4:
+            c['prewarm'] = r.choice([0.5, 1.0])
     res = vlib.run_impl('calib_cases.py', {'direct': cases}, timeout=7200)['direct']
     for c, rr in zip(cases, res):
         ctx.case(c, nontrivial=True, kind='direct/%s/%s' % (c['acc'], c['by']))
